@@ -24,6 +24,9 @@ def viewLine (removed : Option Ids) (n : Node) : String :=
     | none => ""
   s!"{r}set={showIds n.view.set} gap={showIds n.view.gap} table={showTable n.table}"
 
+def nodeLine (n : Node) : String :=
+  s!"set={showIds n.view.set} gap={showIds n.view.gap}"
+
 def step (s : St) (ts : List String) : St × String :=
   match ts with
   | ["cfg", "default"] =>
@@ -72,6 +75,21 @@ def step (s : St) (ts : List String) : St × String :=
   | ["restart"] =>
     let node := init s.w s.node.chain
     ({ s with node := node }, viewLine none node)
+  -- node-level stream: the table is private to the chain service, only the snapshot's view is visible
+  | ["nboot"] =>
+    let node := init s.w [[]]
+    ({ s with node := node }, nodeLine node)
+  | "nswitch" :: common :: branch =>
+    match parseNat? common, branch.mapM parseNatList? with
+    | some c, some bs =>
+      if c < s.node.chain.length then
+        let r := switch s.w s.node c bs
+        ({ s with node := r.1 }, nodeLine r.1)
+      else (s, "bad-op")
+    | _, _ => (s, "bad-op")
+  | ["nrestart"] =>
+    let node := init s.w s.node.chain
+    ({ s with node := node }, nodeLine node)
   | ["verify", ids] =>
     match parseNatList? ids with
     | some ids => (s, if commitOk s.w s.node.chain s.node.chain.length ids then "ok" else "invalid")
